@@ -436,7 +436,11 @@ def boxcount(run, fx):
     pool = None
     for e in calls_in(ctor):
         if (e.get('fq') or '').startswith('graphite2::gralloc') and e.get('args'):
-            refs = [x for x in ctor.walk(e['args'][0]) if x['k'] == 'DeclRefExpr' and x.get('vid') is not None and 'int' in (x.get('t') or '') and x.get('pi') is None]
+            nodes = list(ctor.walk(e['args'][0]))
+            for x in list(nodes):          # a size computed into a const local first
+                if x['k'] == 'DeclRefExpr' and x.get('vid') in ctor.const_init:
+                    nodes += list(ctor.walk(ctor.const_init[x['vid']]))
+            refs = [x for x in nodes if x['k'] == 'DeclRefExpr' and x.get('vid') is not None and (x.get('t') or '').replace('const ', '') == 'int' and x.get('pi') is None]
             if refs:
                 pool = (e, refs[0]['vid'], ctor.render(refs[0]))
     calls = calls_in(ctor, 'graphite2::GlyphCache::Loader::read_glyph')
